@@ -391,7 +391,7 @@ def make_samples(int0, other_instr, have_beads):
 def body_stats(B, I):
     """Statistics columns, event count, acquisition time, positive-only geometric statistics."""
     if B.kind == 'real':
-        return True, 'term-level condition (no real replay)'
+        return replay_stats(B, I)
     xl = B.FC.excel_ui
     nonpos = [I['np0'], I['np1']]
     files = {'s1.fcs': dict(missing=False, n=5000, data_type='I')}
@@ -782,6 +782,84 @@ def replay_hist(B, I):
                         not rnp.array_equal(row_n, counts.astype(float)):
                     return False, 'histogram row is not the histogram of the gated events over ' \
                                   'the library\'s bin edges'
+        return True
+    finally:
+        shutil.rmtree(tmp, ignore_errors=True)
+
+
+def replay_stats(B, I):
+    """Real library and real pandas: one float sample whose FL1 / FL2 columns contain
+    non-positive events as the counterexample says, one error row."""
+    import os
+    import shutil
+    import tempfile
+    import numpy as rnp
+    import pandas as pd
+    from . import fcsgen
+    FC = B.FC
+    xl = FC.excel_ui
+    u = [UNITS[I['u'][k]] for k in range(2)]
+    nonpos = [I['np0'], I['np1']]
+    tmp = tempfile.mkdtemp()
+    try:
+        rs = rnp.random.RandomState(7)
+        ev = rs.lognormal(4.0, 0.7, size=(500, 4)).round(0) + 1.0   # rounded: ties for the mode
+        if nonpos[0]:
+            ev[3::11, 2] = -2.0
+            ev[4::13, 2] = 0.0
+        if nonpos[1]:
+            ev[1::7, 3] = -5.0
+        blob, _ = fcsgen.build_fcs(ev.tolist(), [32] * 4, datatype='F',
+                                   names=['FSC', 'SSC', 'FL1', 'FL2'], ranges=[1024] * 4)
+        path = os.path.join(tmp, 's1.fcs')
+        open(path, 'wb').write(blob)
+        g = FC.io.FCSData(path)
+        samples = collections.OrderedDict([('S1', g), ('S2', xl.ExcelUIException('file not found'))])
+        stab = pd.DataFrame({'FL1 Units': [u[0], 'RFI'], 'FL2 Units': [u[1], None]},
+                            index=pd.Index(['S1', 'S2'], name='ID'))
+        with warnings.catch_warnings():
+            warnings.simplefilter('ignore')
+            r = catch(xl.add_samples_stats, stab, samples)
+            if r[0] != 'ok':
+                return False, 'add_samples_stats raised %s' % r[1], r[2]
+            if stab.loc['S1', 'Number of Events'] != g.shape[0]:
+                return False, 'event count / acquisition time are not those of the gated sample'
+            note2 = stab.loc['S2', 'Analysis Notes']
+            if not (isinstance(note2, str) and note2.startswith('ERROR: ')) or \
+                    not pd.isnull(stab.loc['S2', 'Number of Events']):
+                return False, 'error row not rendered as ERROR note with empty statistics'
+            names = {'Mean': 'mean', 'Median': 'median', 'Mode': 'mode', 'Std': 'std', 'CV': 'cv',
+                     'IQR': 'iqr', 'RCV': 'rcv'}
+            gnames = {'Geom. Mean': 'gmean', 'Geom. Std': 'gstd', 'Geom. CV': 'gcv'}
+            note = stab.loc['S1', 'Analysis Notes']
+
+            def same(a, b):
+                a, b = float(a), float(b)
+                return (a != a and b != b) or a == b
+            for k, c in enumerate(('FL1', 'FL2')):
+                given = u[k] is not None
+                for col, fn in names.items():
+                    v = stab.loc['S1', c + ' ' + col]
+                    if given:
+                        if not same(v, getattr(FC.stats, fn)(g, c)):
+                            return False, 'statistics column is not the library statistic of ' \
+                                          'the gated sample'
+                    elif not pd.isnull(v):
+                        return False, 'statistics reported for a channel without units'
+                    if not pd.isnull(stab.loc['S2', c + ' ' + col]):
+                        return False, 'statistics reported for an error row'
+                base = g
+                if given and nonpos[k]:
+                    base = g[rnp.asarray(g[:, c]) > 0]
+                for col, fn in gnames.items():
+                    v = stab.loc['S1', c + ' ' + col]
+                    if given and not same(v, getattr(FC.stats, fn)(base, c)):
+                        return False, 'geometric statistics not computed over the positive ' \
+                                      'events only'
+                mentions = ('channel %s calculated on positive events' % c) in note
+                if mentions != bool(given and nonpos[k]):
+                    return False, 'note about positive-only geometric statistics missing or ' \
+                                  'spurious'
         return True
     finally:
         shutil.rmtree(tmp, ignore_errors=True)
